@@ -72,6 +72,71 @@ theorem approxS_iff (s a b : α) :
     Spec.approxS s a b = true ↔ |a - b| ≤ (1 / 1000000000 : α) * max s (max |a| |b|) := by
   simp only [Spec.approxS, decide_eq_true_eq, absS_eq_abs, maxS_eq_max, Nat.cast_one, Nat.cast_ofNat]
 
+/-- `a` and `b` agree to 1e-9 relative to the magnitude `s` of the data they were computed from -/
+def Close (s a b : α) : Prop := |a - b| ≤ (1 / 1000000000 : α) * max s (max |a| |b|)
+
+theorem approxS_iff_close (s a b : α) : Spec.approxS s a b = true ↔ Close s a b := approxS_iff s a b
+
+/-- `conserve` ⇔ the matrix has the shape `(m, n, nhaploblk, ·)` of the genome matrix and, for every chromosome
+    copy and every trait, its `nhaploblk` block values sum to the copy's additive value `g·u` -/
+theorem conserve_iff (geno : List (List (List α))) (ucols : List (List α)) (hmat : List (List (List (List α))))
+    (n : Nat) :
+    Spec.conserve geno ucols hmat n = true ↔
+      hmat.length = geno.length ∧ ∀ m, m < geno.length →
+        (hmat.getD m []).length = (geno.getD m []).length ∧ ∀ i, i < (geno.getD m []).length →
+          ((hmat.getD m []).getD i []).length = n ∧ ∀ t, t < ucols.length →
+            Close (Spec.absSum (ucols.getD t []))
+              ((((hmat.getD m []).getD i []).map (fun row => row.getD t 0)).sum)
+              (Np.dot ((geno.getD m []).getD i []) (ucols.getD t [])) := by
+  simp only [Spec.conserve, Bool.and_eq_true, beq_iff_eq, List.all_eq_true, List.mem_range, approxS_iff_close,
+    npsum_eq]
+
+/-- `ohv_def` ⇔ one row per cross configuration and every entry is `ploidy · Σ_blocks max_(phase, parent)` of the
+    block values recomputed from the inputs on the reported blocks -/
+theorem ohvDef_iff (geno : List (List (List α))) (ucols : List (List α)) (bnds : List (Nat × Nat))
+    (xm : List (List Nat)) (ohvmat : List (List α)) :
+    Spec.ohvDef geno ucols bnds xm ohvmat = true ↔
+      ohvmat.length = xm.length ∧ ∀ t, t < ucols.length → ∀ s, s < xm.length →
+        Close (Spec.scaleOf geno (ucols.getD t [])) ((ohvmat.getD s []).getD t 0)
+          (ohv (blockTable geno (ucols.getD t []) bnds) bnds.length (xm.getD s [])) := by
+  simp only [Spec.ohvDef, Bool.and_eq_true, beq_iff_eq, List.all_eq_true, List.mem_range, approxS_iff_close]
+
+/-- `opv_def` ⇔ one entry per trait, each minus the optimal value of the selected set -/
+theorem opvDef_iff (geno : List (List (List α))) (ucols : List (List α)) (bnds : List (Nat × Nat))
+    (x : List Nat) (opv : List α) :
+    Spec.opvDef geno ucols bnds x opv = true ↔
+      opv.length = ucols.length ∧ ∀ t, t < ucols.length →
+        Close (Spec.scaleOf geno (ucols.getD t [])) (-(opv.getD t 0))
+          (ohv (blockTable geno (ucols.getD t []) bnds) bnds.length x) := by
+  simp only [Spec.opvDef, Bool.and_eq_true, beq_iff_eq, List.all_eq_true, List.mem_range, approxS_iff_close]
+
+/-- `ohv_latent_def` ⇔ every entry is minus the arithmetic mean of the selected crosses' optimal haploid values -/
+theorem ohvLatentDef_iff (sc : List α) (ohvmat : List (List α)) (x : List Nat) (lat : List α) :
+    Spec.ohvLatentDef sc ohvmat x lat = true ↔ ∀ t, t < lat.length →
+      Close (sc.getD t 0) (lat.getD t 0)
+        (-((x.map (fun i => (ohvmat.getD i []).getD t 0)).sum / (x.length : α))) := by
+  simp only [Spec.ohvLatentDef, List.all_eq_true, List.mem_range, approxS_iff_close, npsum_eq]
+
+/-- `ohv_latent_w_def` ⇔ every entry is minus the `x`-weighted mean of all crosses' optimal haploid values -/
+theorem ohvLatentWDef_iff (sc : List α) (ohvmat : List (List α)) (x lat : List α) :
+    Spec.ohvLatentWDef sc ohvmat x lat = true ↔ ∀ t, t < lat.length →
+      Close (sc.getD t 0) (lat.getD t 0)
+        (-((List.zipWith (fun xi row => xi * row.getD t 0) x ohvmat).sum / x.sum)) := by
+  simp only [Spec.ohvLatentWDef, List.all_eq_true, List.mem_range, approxS_iff_close, npsum_eq]
+
+/-- `gb_def` ⇔ one entry per trait: `-(ploidy / nbest)` times the sum over blocks of the `nbest` largest best-phase
+    values among the selected individuals -/
+theorem gbDef_iff (geno : List (List (List α))) (ucols : List (List α)) (bnds : List (Nat × Nat))
+    (x : List Nat) (nbest : Nat) (lat : List α) :
+    Spec.gbDef geno ucols bnds x nbest lat = true ↔
+      lat.length = ucols.length ∧ ∀ t, t < ucols.length →
+        Close (Spec.scaleOf geno (ucols.getD t [])) (lat.getD t 0)
+          (-((geno.length : α) / (nbest : α)) * ((List.range bnds.length).map (fun b =>
+            ((sortDesc (x.map (fun p => (bestBlock (blockTable geno (ucols.getD t []) bnds) [p] b).getD 0))).take
+              nbest).sum)).sum) := by
+  simp only [Spec.gbDef, Bool.and_eq_true, beq_iff_eq, List.all_eq_true, List.mem_range, approxS_iff_close, npsum_eq,
+    sortDesc]
+
 end
 
 end Haplo
